@@ -126,6 +126,45 @@ def directed_histories():
     D.append(dict(kind="P", fs=48000, ch=5, app=0, pre=[], sig=2, fd=8, lsb16=False, fmts=[0, 2, 1], stream=("E3", 1),
                   ops=[("C", 1), ("C", 2), ("C", 3), ("U", 1, 0, 6, 0), ("U", 2, 0, 6, 0), ("U", 3, 0, 6, 0), ("Y", 1, 2), ("U", 2, 6, 3, 0),
                        ("U", 1, 6, 3, 0)], tokens={}, lens=None, modes=[0, 1, 2]))
+    plines, psidx = packet_streams(None)
+    fdmap = stream_fd(plines)
+    # decoders carrying settings (phase inversion other than the default of their channel count, gain, complexity) on anti-phase
+    # stereo at low rates and on streams whose layer changes: decode, reset, against a fresh twin given the same settings by ctl
+    # calls; the setting toggled in mid-stream, a copy, another reset and another fresh twin.  Multistream / projection likewise.
+    q = 0
+    for (kind, fs, ch, pi, tag, k) in [("d", 48000, 2, 1, "ap", 0), ("d", 48000, 1, 0, "ap", 1), ("d", 48000, 2, 1, "ap", 2), ("d", 24000, 2, 1, "ap", 3),
+                                       ("d", 16000, 1, 0, "ap", 4), ("d", 48000, 2, 1, "ap", 5), ("d", 48000, 1, 0, "ap", 6), ("d", 16000, 2, 1, "ap", 7),
+                                       ("d", 48000, 2, 0, "ap", 0), ("d", 12000, 1, 1, "ap", 5),
+                                       ("D", 48000, 1, 1, "apE1", 0), ("D", 48000, 3, 1, "apE3", 0), ("D", 48000, 3, 0, "apE3", 0), ("P", 48000, 5, 1, "apE3", 0)]:
+        q += 1
+        pre = [(4046, pi)] + ([(4034, [256, -512, 1024][q % 3])] if q % 2 else []) + ([(4010, [0, 5, 10][q % 3])] if q % 3 == 0 else [])
+        D.append(dict(kind=kind, fs=fs, ch=ch, app=0, pre=pre, sig=4, fd=8, lsb16=False, stream=(tag, k),
+                      ops=[("C", 1), ("U", 1, 0, 6, 0), ("R", 1), ("L", 1, 2), ("U", 1, 6, 4, 0), ("U", 2, 6, 4, 0), ("Y", 1, 3), ("U", 1, 10, 2, 1),
+                           ("U", 3, 10, 2, 1), ("T", 1, 1), ("U", 1, 12, 3, 0), ("R", 1), ("L", 1, 2), ("V", 1, 4, 5, 0), ("V", 2, 4, 5, 0),
+                           ("R", 3), ("V", 3, 4, 5, 0)],
+                      tokens={1: [(4046, 1 - pi)]}, lens=None, modes=[0, 1, 2], once=True,
+                      tiers=("quick", "thorough") if q % 2 or kind != "d" else ("thorough",)))
+    # the three-format decoder twins through loss recovery with a frame_size other than the packet's duration: FEC asked for twice
+    # and three times the packet's duration (concealment for the difference, then the redundant frame - with and without usable
+    # redundancy in the packet), for less than it (too small a buffer, on all three alike), concealment of longer and shorter
+    # spans, decoding with a larger / smaller frame_size; single stream, multistream and projection
+    q = 0
+    for (kind, fs, ch, tag, k) in [("d", 16000, 1, "e", 0), ("d", 48000, 1, "e", 1), ("d", 48000, 2, "e", 5), ("d", 16000, 2, "e", 8),
+                                   ("d", 48000, 2, "e", 3), ("d", 48000, 2, "e", 11), ("d", 8000, 1, "e", 6), ("d", 24000, 1, "e", 10),
+                                   ("d", 48000, 2, "ap", 2), ("d", 48000, 1, "ap", 6), ("d", 48000, 2, "mf", 4),
+                                   ("D", 16000, 0, "E0", 2), ("D", 48000, 1, "E1", 2), ("D", 48000, 3, "E3", 2), ("D", 48000, 2, "E2", 0),
+                                   ("P", 48000, 4, "J", 0), ("P", 48000, 5, "E3", 2)]:
+        q += 1
+        fd = fdmap[psidx[tag][k]]
+        half = max(1, fd // 2)
+        ops = [("C", 1), ("C", 2), ("C", 3)]
+        for o in (1, 2, 3):
+            ops += [("W", o, 0, 3, 0, 0), ("W", o, 4, 1, 2, 2 * fd), ("W", o, 6, 2, 0, 0), ("W", o, 8, 1, 2, half), ("W", o, 8, 1, 2, min(48, 3 * fd)),
+                    ("W", o, 10, 2, 1, min(48, 2 * fd)), ("W", o, 12, 1, 1, 1), ("W", o, 12, 2, 0, min(96, 4 * fd)), ("W", o, 14, 1, 0, half),
+                    ("W", o, 14, 1, 1, half), ("W", o, 15, 2, 2, fd + 1 if fd < 8 else fd + 4), ("W", o, 17, 2, 0, 0)]
+        D.append(dict(kind=kind, fs=fs, ch=ch, app=0, pre=[], sig=4, fd=8, lsb16=False, fmts=[0, 2, 1], stream=(tag, k), ops=ops,
+                      tokens={}, lens=None, modes=[0, 1, 2], once=True,
+                      tiers=("quick", "thorough") if q % 2 or kind != "d" else ("thorough",)))
     return D
 
 
@@ -184,8 +223,32 @@ def packet_streams(rng):
     add("J", 48000, 4, 2049, 256000, 8, 0, 4, 40, "J")
     add("J", 48000, 4, 2049, 128000, 8, 0, 2, 40, "J")
     add("J", 48000, 4, 2049, 96000, 4, 0, 1, 40, "J")
+    # stereo in anti-phase at low transform-layer / hybrid rates (the inversion flag of the intensity-stereo bands is coded: what a
+    # decoder's phase-inversion setting acts on), and streams whose layer changes every four packets (speech -> transform -> hybrid
+    # -> transform: the decoder re-initialises its transform layer inside a stream)
+    add("e", 48000, 2, 2051, 24000, 8, 0, 20, 40, "ap")
+    add("e", 48000, 2, 2049, 32000, 8, 0, 20, 40, "ap")
+    add("e", 48000, 2, 2048, 28000, 8, 1, 21, 40, "ap")
+    add("e", 48000, 2, 2051, 16000, 4, 0, 20, 40, "ap")
+    add("e", 24000, 2, 2051, 20000, 8, 0, 20, 40, "ap")
+    add("S", 48000, 2, 2049, 36000, 8, 0, 21, 48, "ap")
+    add("S", 48000, 2, 2048, 24000, 8, 1, 20, 48, "ap")
+    add("S", 16000, 1, 2048, 20000, 8, 1, 1, 48, "ap")
+    idx["e"] += idx["ap"]
+    add("E", 48000, 1, 2049, 40000, 8, 0, 20, 40, "apE1")
+    add("E", 48000, 3, 2049, 48000, 8, 0, 20, 40, "apE3")
+    idx["E1"] += idx["apE1"]; idx["E3"] += idx["apE3"]
     assert sid <= NPS
     return lines, idx
+
+
+def stream_fd(plines):
+    """sid -> packet duration in 2.5 ms units"""
+    out = {}
+    for ln in plines:
+        f = ln.split()
+        out[int(f[1])] = int(f[7]) * (max(1, int(f[8])) if f[2] == "R" else 1)
+    return out
 
 
 # ------------------------------------------------------------------------------------------------ instantiation
@@ -221,11 +284,31 @@ def enc_setting(rng, ch):
 
 def dec_setting(rng):
     u = rng.random()
-    if u < 0.5:
+    if u < 0.35:
         return [(4034, rng.choice([-1536, -768, -256, 0, 256, 512, 1024]))]
-    if u < 0.8:
+    if u < 0.75:
         return [(4046, rng.choice([0, 1]))]
+    if u < 0.85:
+        return [(4046, rng.choice([0, 1])), (4034, rng.choice([-768, 256, 1024])), (4010, rng.choice([0, 5, 10]))]
     return [(4010, rng.choice([0, 5, 10]))]
+
+
+FQ_UNITS = [1, 2, 3, 4, 6, 8, 12, 16, 24, 32, 48, 50]
+
+
+def dec_frame_sizes(rng, fs):
+    """the frame_size a decoder run passes, per call variant (0 normal: first call; 1 lost: every call; 2 first by FEC: that call):
+    0 = the packet's duration, else a number of samples - multiples of 2.5 ms larger and smaller than the packet, now and then one
+    sample off a multiple"""
+    out = {}
+    for mode, p in ((0, 0.2), (1, 0.5), (2, 0.5)):
+        fq = 0
+        if rng.random() < p:
+            fq = fs // 400 * rng.choice(FQ_UNITS)
+            if rng.random() < 0.08:
+                fq += rng.choice([-1, 1])
+        out[mode] = fq
+    return out
 
 
 def pick_kind(rng, pid):
@@ -272,7 +355,7 @@ def instantiate(ops, rng, hid, pid, psidx, pinned=None):
                 pre += [(4006, 0)]
                 maxb = rng.choice([40, 80, 160, 1500])
         else:
-            if rng.random() < 0.25:
+            if rng.random() < 0.5:
                 pre += dec_setting(rng)
     elif pinned.get("lsb16"):
         pre = [(4036, 16)] + pre
@@ -292,6 +375,9 @@ def instantiate(ops, rng, hid, pid, psidx, pinned=None):
     if pinned.get("stream"):
         sid = psidx[pinned["stream"][0]][pinned["stream"][1]]
     fmts = list(pinned.get("fmts") or [])
+    fqs = {0: 0, 1: 0, 2: 0}
+    if not enc and not pinned:
+        fqs = dec_frame_sizes(rng, fs)
     seedA, seedB = rng.randrange(1, 1 << 30), rng.randrange(1, 1 << 30)
     rot = rng.randrange(1, 5)
     settings, pos = {}, {}
@@ -331,7 +417,7 @@ def instantiate(ops, rng, hid, pid, psidx, pinned=None):
             if enc:
                 A.append("E %d %d %d %d %d %d %d" % (o, perm[v % 3], sig, pos[o], n, fd, maxb))
             else:
-                A.append("D %d %d %d %d %d" % (o, sid, pos[o], n, perm[v % 3]))
+                A.append("D %d %d %d %d %d %d" % (o, sid, pos[o], n, perm[v % 3], fqs[perm[v % 3]]))
             pos[o] += n
         elif t == "V":          # (directed histories only) a run at an explicit position, optionally with its own buffer duration
             o, k0, n, v = op[1] - 1, op[2], op[3], op[4]
@@ -339,6 +425,10 @@ def instantiate(ops, rng, hid, pid, psidx, pinned=None):
                 A.append("E %d %d %d %d %d %d %d" % (o, perm[v % 3], sig, k0, n, op[5] if len(op) > 5 else fd, maxb))
             else:
                 A.append("D %d %d %d %d %d" % (o, sid, k0, n, perm[v % 3]))
+        elif t == "W":          # (directed histories only) a decoder run at an explicit position: mode and frame_size (2.5 ms units) given
+            o, k0, n, mode, units = op[1] - 1, op[2], op[3], op[4], op[5]
+            fq = 0 if units == 0 else max(1, int(fs // 400 * units))
+            A.append("D %d %d %d %d %d %d" % (o, sid, k0, n, mode, fq))
         elif t == "Y":
             s, d = op[1] - 1, op[2] - 1
             A.append("Y %d %d" % (s, d))
@@ -408,12 +498,33 @@ def parse_stats(r):
         m = re.match(r'<<"STATS", (.*)>>', p)
         if m:
             return [int(x) for x in m.group(1).split(",")]
-    return [0] * 8
+    return [0] * len(STAT_NAMES)
 
 
 STAT_NAMES = ["full_key_comparisons", "erased_key_comparisons", "comparisons_on_copies", "comparisons_after_reset",
               "comparisons_across_formats", "clipping_decodes_16bit_relation", "projection_relation_evaluated",
-              "tolerated_projection_16bit_wraps"]
+              "tolerated_projection_16bit_wraps", "getter_snapshots_compared", "getter_snapshots_compared_reset_vs_fresh",
+              "getter_outcome_compared_across_formats", "tolerated_reset_getter_snapshots"]
+
+# Provisional findings of the getter clause (C12), to be moved into known_findings.json by the coordinator.  While this list is
+# non-empty (and VERIF_NO_KNOWN is not 1) the trace spec runs with TolerateResetGetters = TRUE: snapshots of exactly these shapes
+# (object reset and not yet called; the pitch of a decoder / the snapshot of a multistream encoder) are not compared, the
+# differing ones are counted, and the check prints KNOWN-FINDING.
+PROVISIONAL = [
+    dict(id="F-C12-pitch", property="C12", key=dict(kind="decoder (d, D, P)", state="has been reset", getter=4033),
+         what="after OPUS_RESET_STATE a decoder's OPUS_GET_PITCH still reports the pitch lag of the stream decoded before the reset "
+              "(DecControl.prevPitchLag lies before OPUS_DECODER_RESET_START and silk_ResetDecoder does not touch it); a newly created "
+              "decoder reports 0; concealment calls made after the reset keep the stale value.  Decoding is not affected."),
+    dict(id="F-C12-msenc", property="C12", key=dict(kind="multistream encoder (E)", state="reset, no call since", getter="4003/4009/4023 and the streams' getters"),
+         what="after OPUS_RESET_STATE a multistream encoder's streams still carry the bitrate, forced channel count and bandwidth that the "
+              "last opus_multistream_encode call gave them (the per-call rate allocation writes them with ctl calls), so OPUS_GET_BITRATE / "
+              "OPUS_GET_FORCE_CHANNELS and the streams' getters differ from those of a newly created multistream encoder with the same "
+              "settings until the next encode call rewrites them.  The packets are not affected."),
+]
+
+
+def provisional():
+    return [] if os.environ.get("VERIF_NO_KNOWN") == "1" else PROVISIONAL
 
 
 def history_of_line(trace, lineno):
@@ -461,7 +572,7 @@ def finding_f14():
 
 def trace_cfg(pid, pj):
     if pid == "C12":
-        return "ObjectsTrace_C12.cfg"
+        return "ObjectsTrace_C12.cfg" if provisional() else "ObjectsTrace_C12strict.cfg"
     return "ObjectsTrace_C13tolP.cfg" if pj else "ObjectsTrace_C13.cfg"
 
 
@@ -578,7 +689,8 @@ def run_check(ctx, pid):
             part = sel[k * per:(k + 1) * per]
             if part:
                 jobs.append((vname, cap, k, part))
-    totals = [0] * 8
+    totals = [0] * len(STAT_NAMES)
+    reported = set()
     events = 0
     npj = 0
 
@@ -643,6 +755,18 @@ def run_check(ctx, pid):
                     with open(os.path.join(vf.REPLAY, "%s_known_F14.txt" % pid), "w") as f:
                         f.write(minimal_replay(ips, hid))
             npj += st[7]
+        if st[11] > 0:
+            # which of the two provisional shapes occurred is read off the tolerated events (an encoder's snapshot starts with 4001)
+            for pr in tr.prints:
+                m = re.match(r'<<"TOLERATED_GET", (\d+)>>', pr)
+                if not m:
+                    continue
+                ev = vf.file_line(out, int(m.group(1)))
+                fid = "F-C12-msenc" if '"g":"4001=' in ev else "F-C12-pitch"
+                if fid not in reported:
+                    reported.add(fid)
+                    e = [x for x in provisional() if x["id"] == fid][0]
+                    ctx.known_finding("%s [provisional %s; e.g. %s line %s: %s]" % (e["what"], fid, name, m.group(1), ev[:300]))
         if len(ctx.samples) < 4:
             with open(out) as f:
                 for ln in f:
@@ -655,7 +779,7 @@ def run_check(ctx, pid):
     ctx.notes["comparisons"] = dict(zip(STAT_NAMES, totals))
     ctx.notes["variants"] = ["%s%s" % (v, "" if c is None else " arch cap %d" % c) for v, c in variants]
     if not ctx.violations:
-        need = [0, 2, 3] if pid == "C12" else [1, 4, 5, 6]
+        need = [0, 2, 3, 8, 9] if pid == "C12" else [1, 4, 5, 6, 10]
         for i in need:
             if totals[i] == 0:
                 raise vf.Infra("%s: vacuous run - no %s" % (pid, STAT_NAMES[i]))
